@@ -24,11 +24,15 @@ def explore(res, rng, n):
         # ---- plain sampler on an integer lattice, target = table of integer weights (ratios exact)
         d = rng.choice([1, 2, 3])
         weights = {}
-        def f(x, weights=weights):
+        # un-normalised targets of any magnitude (a likelihood of 100 observations is ~1e-70): the table times an exact power of two, the
+        # ratios - all the rule looks at - are unchanged
+        sc = rng.choice([1.0, 1.0, 1.0, 2.0 ** -100, 2.0 ** -400, 2.0 ** 300, 2.0 ** -60])
+        res.stat('mh_density_scale_' + ('1' if sc == 1.0 else 'tiny' if sc < 1 else 'huge'))
+        def f(x, weights=weights, sc=sc):
             key = tuple(int(v) for v in np.atleast_1d(x))
             if key not in weights:
                 weights[key] = rng.choice([0, 0, 1, 2, 3, 4, 8, 5])
-            return float(weights[key])
+            return float(weights[key]) * sc
         cur = [rng.randint(-2, 2) for _ in range(d)]
         weights[tuple(cur)] = rng.choice([1, 2, 4, 8, 3])          # the chain starts in the support
         lim = rng.choice([1, 2, 5])
@@ -44,7 +48,7 @@ def explore(res, rng, n):
             uden = rng.choice([2, 4, 8, 16])
             unum = rng.choice([0, 0, 1, uden // 2, uden - 1, uden]) if rng.random() < 0.6 else rng.randrange(uden + 1)
             u = unum / uden
-            fcur, fcand = int(f(np.array(state))), int(f(np.array(cand)))
+            fcur, fcand = int(f(np.array(state)) / sc), int(f(np.array(cand)) / sc)
             if fcur == 0:
                 break
             try:
@@ -74,12 +78,13 @@ def explore(res, rng, n):
         # ---- component-wise sampler
         d = rng.choice([1, 2, 3, 4])
         tabs = [dict() for _ in range(d)]
+        scs = [rng.choice([1.0, 1.0, 1.0, 2.0 ** -100, 2.0 ** -400, 2.0 ** 200]) for _ in range(d)]
         def mk(j):
             def fj(x):
                 key = int(np.asarray(x))
                 if key not in tabs[j]:
                     tabs[j][key] = rng.choice([0, 1, 2, 4, 8, 3])
-                return float(tabs[j][key])
+                return float(tabs[j][key]) * scs[j]
             return fj
         fs = [mk(j) for j in range(d)]
         cur = [rng.randint(-2, 2) for _ in range(d)]
@@ -96,8 +101,8 @@ def explore(res, rng, n):
             uds = [rng.choice([2, 4, 8]) for _ in range(d)]
             uns = [rng.choice([0, ud, rng.randrange(ud + 1), rng.randrange(ud + 1)]) for ud in uds]
             it = iter([un / ud for un, ud in zip(uns, uds)])
-            fcur = [int(fs[j](cur[j])) for j in range(d)]
-            fcand = [int(fs[j](cand[j])) for j in range(d)]
+            fcur = [int(fs[j](cur[j]) / scs[j]) for j in range(d)]
+            fcand = [int(fs[j](cand[j]) / scs[j]) for j in range(d)]
             if any(v == 0 for v in fcur):
                 break
             try:
